@@ -36,7 +36,7 @@ COMPONENTS = {"real": ["clustering/kmeans.py (KMeans.fit, kmeansplusplus_centers
                        "np.random / random seeds (owned by the simulator)", "monitor_distances callback (environment: cancels at a seeded iteration)",
                        "reference DTW for the nearest-mean oracle: sim/models/dtw_ref.py"]}
 ASSUMPTIONS = ["one history in three: the caller keeps one collection object for all fits and refills it in place between them",
-               "bounds: mostly k 1..5, n = k+1..12 series of length 2..8 (one history in 10: k 4..8, n up to 25, length <= 13, max_it <= 9), ndim 1..2, max_it 0..5, max_dba_it 1..3, thr in {default, 1e-4, 0.05, 0.5, 2}, data amplitude in {1, 1e-3, 1e-4}",
+               "bounds: mostly k 1..5, n = k+1..12 series of length 2..8 (one history in 10: k 4..8, n up to 25, length <= 13, max_it <= 9; one in 8: k 6..9 over k+1..k+6 short series), ndim 1..2, max_it 0..5, max_dba_it 1..3, thr in {default, 1e-4, 0.05, 0.5, 2}, data amplitude in {1, 1e-3, 1e-4}",
                "empty clusters in the returned dict are allowed (with fewer distinct series than k they are unavoidable); keys must still be exactly 0..k-1",
                "nearest-mean comparison uses rel. tol 1e-9 on the reference distances; serial vs parallel comparison is exact (float bits)"]
 
@@ -48,10 +48,11 @@ def gen_history(st):
     data = []
     kmax = 1
     big = rng.below(10) == 0          # swarm sizing: one history in 10 is larger (more series, larger k, longer series, more iterations)
-    for _ in range(ndata):
-        k = 4 + rng.below(5) if big else 1 + rng.below(5)
+    manyk = (not big) and rng.below(8) == 0     # one history in 8: many clusters (k 6..9) over few, short series - cheap, and the only
+    for _ in range(ndata):                      # place where code paths that depend on a large k run often
+        k = 4 + rng.below(5) if big else (6 + rng.below(4) if manyk else 1 + rng.below(5))
         kmax = max(kmax, k)
-        n = k + 6 + rng.below(12) if big else k + 1 + rng.below(12 - k)
+        n = k + 6 + rng.below(12) if big else (k + 1 + rng.below(6) if manyk else k + 1 + rng.below(12 - k))
         distinct = 1 + rng.below(n) if rng.below(2) else n     # heavy duplicate rates
         equal = rng.below(2) == 0
         L0 = 2 + rng.below(12 if big else 7)
